@@ -1,22 +1,30 @@
-"""per-unit outcome census of the dec/ units (which decoders end in something else than Notify): for the C03 builder"""
+"""per-unit outcome census of the dec/ units (which decoders end in something else than Notify): for the C03 builder
+usage: PYTHONPATH=/verif:/repo/src exabgp_log_enable=false .venv/bin/python wip/C15/census.py 'dec/*' 6"""
 import sys, json, fnmatch, concurrent.futures as cf, multiprocessing as mp
-from sx.run import run_unit
-from checks import c15
-pat = sys.argv[1] if len(sys.argv) > 1 else 'dec/*'
-names = [u.name for u in c15.units('quick') if fnmatch.fnmatch(u.name, pat)]
-out = {}
-with cf.ProcessPoolExecutor(max_workers=int(sys.argv[2]) if len(sys.argv) > 2 else 6, mp_context=mp.get_context('spawn')) as ex:
-    futs = {ex.submit(run_unit, 'checks.c15', 'quick', n, 0): n for n in names}
-    for f in cf.as_completed(futs):
-        n = futs[f]
-        try:
-            r = f.result()
-        except BaseException as exc:
-            print(n, 'FAILED', exc, flush=True)
-            continue
-        odd = {k: v for k, v in r['classes'].items() if k.startswith('refused-by-')}
-        if odd:
-            sample = [s for s in r['samples'] if str(s.get('notes', {}).get('class', '')).startswith('refused-by-')][:2]
-            out[n] = {'classes': odd, 'samples': [{'inputs': s['inputs'], 'class': s['notes']['class']} for s in sample]}
-            print(n, odd, flush=True)
-json.dump(out, open('/verif/wip/C15/census.json', 'w'), indent=1)
+
+
+def main():
+    from sx.run import run_unit
+    from checks import c15
+    pat = sys.argv[1] if len(sys.argv) > 1 else 'dec/*'
+    names = [u.name for u in c15.units('quick') if fnmatch.fnmatch(u.name, pat)]
+    out = {}
+    with cf.ProcessPoolExecutor(max_workers=int(sys.argv[2]) if len(sys.argv) > 2 else 6, mp_context=mp.get_context('spawn')) as ex:
+        futs = {ex.submit(run_unit, 'checks.c15', 'quick', n, 0): n for n in names}
+        for f in cf.as_completed(futs):
+            n = futs[f]
+            try:
+                r = f.result()
+            except BaseException as exc:
+                print(n, 'FAILED', exc, flush=True)
+                continue
+            odd = {k: v for k, v in r['classes'].items() if k.startswith('refused-by-')}
+            if odd:
+                sample = [s for s in r['samples'] if str(s.get('notes', {}).get('class', '')).startswith('refused-by-')][:2]
+                out[n] = {'classes': odd, 'samples': [{'inputs': s['inputs'], 'class': s['notes']['class']} for s in sample]}
+                print(n, odd, flush=True)
+    json.dump(out, open('/verif/wip/C15/census.json', 'w'), indent=1)
+
+
+if __name__ == '__main__':
+    main()
